@@ -37,6 +37,7 @@ PROBES = [
     "vector_checked", "pair_both_directions", "create_frames_reentered", "dynamic_lookup_created_frames", "unknown_frame_refused", "mutated_then_queried_again",
     "registration_interleaved", "config_flip_after_first_use", "restart", "kernel_fault_fired", "without_pck", "date_last_minute_of_day", "analytic_history_independent",
     "analytic_within_series_accuracy", "builtin_frame_to_body", "analytic_other_body_on_neighbouring_days", "reversed_propagator_checked", "non_cartesian_state_changed_body", "frame_attached_to_a_jpl_orbit", "kernel_frame_served_after_analytic_namesake", "pickled_body_state_converted",
+    "kernel_variant_type3", "kernel_variant_reordered", "kernel_variant_split", "kernel_variant_split_reordered", "propagated_after_in_place_change",
 ]
 REAL_VS_STUB = "real: beyond.env.jpl (Bsp/Pck singletons, JplPropagator, create_frames, get_orbit, get_frame), frames/centres routing, Date, jplephem reading the real DE403 2000-2020 kernel and the real PCK text files (faulted copies in a scratch directory); stub: none; model: own jplephem handle on the intact kernel chained segment by segment, own TDB (sim/models/timescales.py)"
 ASSUMPTIONS = [
@@ -51,43 +52,158 @@ BSP = "de403_2000-2020.bsp"
 PCKS = ["pck00010.tpc", "gm_de431.tpc"]
 
 _model = {}
+_variants = {}
+
+KERNEL_VARIANTS = ("stock", "type3", "reordered", "split", "split_reordered")
 
 
-def model_kernel():
-    if "spk" not in _model:
+def _variant_dir():
+    """Directory holding the rewritten kernels of this batch (created by batch_setup in the parent process and handed to the forked
+    workers through the environment; a lone --one / --replay execution creates its own and removes it at exit)."""
+    d = os.environ.get("VERIF_C18_VARIANTS")
+    if d and os.path.isdir(d):
+        return d
+    import atexit
+
+    base = os.environ.get("VERIF_SCRATCH") or tempfile.gettempdir()
+    d = tempfile.mkdtemp(prefix="c18_kernels_", dir=base)
+    os.environ["VERIF_C18_VARIANTS"] = d
+    owner = os.getpid()
+    atexit.register(lambda: shutil.rmtree(d, ignore_errors=True) if os.getpid() == owner else None)
+    return d
+
+
+def _new_daf(fp, old):
+    from jplephem.daf import DAF
+
+    fp.write(old.read_record(1))
+    fp.write(b"rewritten by the C18 check\0\004".ljust(1024, b" "))
+    fp.write(b"\0" * 1024)
+    fp.write(b" " * 1024)
+    fp.seek(0)
+    d = DAF(fp)
+    d.fward = d.bward = 3
+    d.free = (d.fward + 1) * (1024 // 8) + 1
+    d.write_file_record()
+    return d
+
+
+def _write_kernel(dst, picks, as_type3=False):
+    """Write the segments `picks` (indices into the stock file's summaries, in that order) of the stock kernel to dst; as type 3 the
+    records get velocity polynomials = exact derivatives of the position polynomials, in km/s (legal, read by jplephem)."""
+    from jplephem.spk import SPK
+    from numpy.polynomial import chebyshev
+
+    src = SPK.open(os.path.join(JPL_DIR, BSP))
+    old = src.daf
+    summaries = list(old.summaries())
+    tmp = dst + f".tmp{os.getpid()}"
+    with open(tmp, "w+b") as fp:
+        d = _new_daf(fp, old)
+        for k in picks:
+            name, values = summaries[k]
+            start, end = values[-2], values[-1]
+            if not as_type3:
+                d.add_array(name, tuple(values[:6]) + (0, 0), np.array(old.read_array(start, end)))
+                continue
+            init, intlen, rsize, n = old.read_array(end - 3, end)
+            rsize, n = int(rsize), int(n)
+            ncoef = (rsize - 2) // 3
+            rec = np.array(old.read_array(start, end - 4)).reshape(n, rsize)
+            new = np.zeros((n, 2 + 6 * ncoef))
+            new[:, :rsize] = rec
+            radius = rec[:, 1]
+            for c_ in range(3):
+                c = rec[:, 2 + c_ * ncoef : 2 + (c_ + 1) * ncoef]
+                dc = chebyshev.chebder(c, axis=1) / radius[:, None]
+                new[:, 2 + (3 + c_) * ncoef : 2 + (3 + c_) * ncoef + ncoef - 1] = dc
+            d.add_array(name, tuple(values[:5]) + (3, 0, 0), np.concatenate((new.ravel(), [init, intlen, new.shape[1], n])))
+    src.close()
+    os.replace(tmp, dst)
+
+
+def kernel_files(variant):
+    """Paths of the .bsp file(s) of a kernel variant: the same 15 segments as the stock DE403 excerpt, stored as type 3 records, in the
+    reverse order (children before their parents), or spread over two files (in file order / children first)."""
+    if variant in (None, "stock"):
+        return [os.path.join(JPL_DIR, BSP)]
+    if variant in _variants and all(os.path.exists(f) for f in _variants[variant]):
+        return _variants[variant]
+    d = _variant_dir()
+    n = 15
+    spec = {
+        "type3": [("type3.bsp", list(range(n)), True)],
+        "reordered": [("reordered.bsp", list(range(n))[::-1], False)],
+        "split": [("split_a.bsp", list(range(0, 6)), False), ("split_b.bsp", list(range(6, n)), False)],
+        "split_reordered": [("splitr_a.bsp", list(range(10, n))[::-1], False), ("splitr_b.bsp", list(range(0, 10))[::-1], False)],
+    }[variant]
+    out = []
+    for fn, picks, t3 in spec:
+        path = os.path.join(d, fn)
+        if not os.path.exists(path):
+            _write_kernel(path, picks, t3)
+        out.append(path)
+    _variants[variant] = out
+    return out
+
+
+def batch_setup():
+    base = os.environ.get("VERIF_SCRATCH") or tempfile.gettempdir()
+    d = tempfile.mkdtemp(prefix="c18_kernels_", dir=base)
+    os.environ["VERIF_C18_VARIANTS"] = d
+    for v in KERNEL_VARIANTS:
+        kernel_files(v)
+
+
+def batch_teardown():
+    d = os.environ.pop("VERIF_C18_VARIANTS", None)
+    if d:
+        shutil.rmtree(d, ignore_errors=True)
+    _variants.clear()
+
+
+def model_kernel(variant="stock"):
+    """The model's own jplephem handles on the kernel file(s) of the variant the run is configured with."""
+    variant = variant or "stock"
+    if variant not in _model:
         from jplephem.spk import SPK
         from jplephem.names import target_names
 
-        spk = SPK.open(os.path.join(JPL_DIR, BSP))
-        _model["spk"] = spk
+        m = {"spk": [SPK.open(f) for f in kernel_files(variant)]}
         seg = {}
-        for s in spk.segments:
-            seg[s.target] = s
-        _model["seg"] = seg
-        _model["names"] = {i: target_names.get(i, "Unknown").title().replace(" ", "") for i in set(seg) | {s.center for s in spk.segments}}
-        _model["index"] = {v: k for k, v in _model["names"].items()}
-        _model["span"] = (max(s.start_jd for s in spk.segments), min(s.end_jd for s in spk.segments))
-    return _model
+        for spk in m["spk"]:
+            for s in spk.segments:
+                seg[s.target] = s
+        m["seg"] = seg
+        m["names"] = {i: target_names.get(i, "Unknown").title().replace(" ", "") for i in set(seg) | {s.center for s in seg.values()}}
+        m["index"] = {v: k for k, v in m["names"].items()}
+        m["span"] = (max(s.start_jd for s in seg.values()), min(s.end_jd for s in seg.values()))
+        _model[variant] = m
+    return _model[variant]
 
 
-def model_state(idx, jd):
+def model_state(idx, jd, variant="stock"):
     """Position (m) and velocity (m/s) of body idx relative to the solar-system barycentre (0), chaining the segments."""
-    m = model_kernel()
+    m = model_kernel(variant)
     out = np.zeros(6)
     while idx != 0:
         s = m["seg"][idx]
-        p, v = s.compute_and_differentiate(jd)
-        out[:3] += np.asarray(p) * 1000.0
-        out[3:] += np.asarray(v) * 1000.0 / 86400.0
+        if s.data_type == 3:
+            pv = np.asarray(s.compute(jd), dtype=float)  # km and km/s
+            out += pv * 1000.0
+        else:
+            p, v = s.compute_and_differentiate(jd)  # km and km/day
+            out[:3] += np.asarray(p) * 1000.0
+            out[3:] += np.asarray(v) * 1000.0 / 86400.0
         idx = s.center
     return out
 
 
-def model_accel(idx, jd):
+def model_accel(idx, jd, variant="stock"):
     h = 0.01
-    lo, hi = model_kernel()["span"]
+    lo, hi = model_kernel(variant)["span"]
     a, b = max(jd - h, lo), min(jd + h, hi)
-    return (model_state(idx, b)[3:] - model_state(idx, a)[3:]) / ((b - a) * 86400.0)
+    return (model_state(idx, b, variant)[3:] - model_state(idx, a, variant)[3:]) / ((b - a) * 86400.0)
 
 
 # ------------------------------------------------------------------ generate
@@ -120,6 +236,9 @@ def gen_date(rng):
 def gen_plan(rng, tier, i):
     names = ["SolarSystemBarycenter", "MercuryBarycenter", "VenusBarycenter", "EarthBarycenter", "MarsBarycenter", "JupiterBarycenter", "SaturnBarycenter",
              "UranusBarycenter", "NeptuneBarycenter", "PlutoBarycenter", "Sun", "Moon", "Earth", "Mercury", "Venus", "Mars"]
+    import random
+
+    child = random.Random("c18-child:" + repr(rng.getstate()[1][:8]))  # choices added after the first version draw from a generator of their own: earlier plans keep their operations
     kn = {
         "pck": rng.choice([[], [], ["pck00010.tpc"], ["pck00010.tpc", "gm_de431.tpc"], ["gm_de431.tpc"]]),
         "dynamic_frames": rng.random() < 0.4,
@@ -127,6 +246,7 @@ def gen_plan(rng, tier, i):
         "fault": None,
         "explicit_create": rng.random() < 0.8,
     }
+    kn["kernel"] = child.choice(["stock"] * 5 + ["type3", "type3", "reordered", "reordered", "split", "split_reordered"])
     if rng.random() < 0.15:
         kn["fault"] = {"kind": rng.choice(["bsp_missing", "bsp_empty", "bsp_truncated", "pck_missing", "pck_damaged"]), "at": rng.random()}
     ops = []
@@ -138,6 +258,8 @@ def gen_plan(rng, tier, i):
             op.update(a=a, b=b, date=gen_date(rng), probe=[rng.uniform(-1e7, 1e7) for _ in range(3)] + [rng.uniform(-1e3, 1e3) for _ in range(3)] if rng.random() < 0.5 else [0.0] * 6, both=rng.random() < 0.5)
         elif k in ("get_orbit", "mutate_again"):
             op.update(name=rng.choice(names[1:]), date=gen_date(rng), how=rng.choice(["frame", "form", "values"]))
+            if k == "mutate_again" and child.random() < 0.6:
+                op["then_propagate"] = child.choice([0.25, 1.0, -1.0, 3.5])
         elif k == "dynamic":
             op.update(name=rng.choice(names + ["Nope", "Vulcan"]))
         elif k == "reverse":
@@ -178,8 +300,13 @@ class World:
             load_real_eop(self.disk)
             self.tables = ts.Tables(*(self.disk.files[f"/eop/{fn}"] for fn in ("finals.all", "finals2000A.all", "tai-utc.dat")))
         self.scratch = None
-        self.files = [os.path.join(JPL_DIR, BSP)] + [os.path.join(JPL_DIR, p) for p in kn["pck"]]
         self.fault = kn.get("fault")
+        # the same 15 segments stored another way (type 3 records, children before parents, two files): a configuration like any other;
+        # file faults are applied to the stock file
+        self.variant = "stock" if self.fault else (kn.get("kernel") or "stock")
+        self.files = kernel_files(self.variant) + [os.path.join(JPL_DIR, p) for p in kn["pck"]]
+        if self.variant != "stock":
+            ctx.probe("kernel_variant_" + self.variant)
         self.faulted = False
         if self.fault:
             self.apply_fault()
@@ -256,7 +383,9 @@ class World:
 
     # -- model -----------------------------------------------------------------
     def jd_tdb(self, date):
-        day, sec, scale = date
+        """TDB Julian date of [day, seconds, scale] (+ an optional number of days of uniform time added to the instant afterwards)."""
+        day, sec, scale = date[:3]
+        plus = date[3] if len(date) > 3 else 0.0
         L = 0.0
         if self.real_eop:
             L = self.tables.tai_utc(day + sec / 86400.0) or 0.0
@@ -269,29 +398,31 @@ class World:
         elif scale == "TT":
             tt = sec
         else:
-            return day + 2400000.5 + sec / 86400.0
-        mjd_tt = day + tt / 86400.0
-        return day + 2400000.5 + (tt + ts.tdb_minus_tt(mjd_tt)) / 86400.0
+            if not plus:
+                return day + 2400000.5 + sec / 86400.0
+            tt = sec - ts.tdb_minus_tt(day + sec / 86400.0)
+        mjd_tt = day + tt / 86400.0 + plus
+        return day + plus + 2400000.5 + (tt + ts.tdb_minus_tt(mjd_tt)) / 86400.0
 
     def model_vector(self, a, b, jd):
         """State of the origin of frame a, seen from frame b (both EME2000-oriented), metres and m/s."""
-        m = model_kernel()
+        m = model_kernel(self.variant)
 
         def st(name):
             if name == "EME2000":
                 name = "Earth"
-            return model_state(m["index"][name], jd)
+            return model_state(m["index"][name], jd, self.variant)
 
         return st(a) - st(b)
 
     def tol(self, a, b, jd):
-        m = model_kernel()
+        m = model_kernel(self.variant)
         va = self.model_vector(a, b, jd)
         ia = m["index"]["Earth" if a == "EME2000" else a]
         ib = m["index"]["Earth" if b == "EME2000" else b]
-        sa, sb = model_state(ia, jd), model_state(ib, jd)
+        sa, sb = model_state(ia, jd, self.variant), model_state(ib, jd, self.variant)
         speed = np.linalg.norm(sa[3:]) + np.linalg.norm(sb[3:])
-        acc = np.linalg.norm(model_accel(ia, jd)) + np.linalg.norm(model_accel(ib, jd))
+        acc = np.linalg.norm(model_accel(ia, jd, self.variant)) + np.linalg.norm(model_accel(ib, jd, self.variant))
         tp = TOLERANCES["pos_m"] + TOLERANCES["pos_rel"] * (np.linalg.norm(sa[:3]) + np.linalg.norm(sb[:3])) + speed * TOLERANCES["jd_slack_s"]
         tv = TOLERANCES["vel_m_s"] + 1e-12 * speed + acc * TOLERANCES["jd_slack_s"]
         return tp, tv
@@ -395,7 +526,7 @@ class World:
         jpl = n.mod("beyond.env.jpl")
         if self.guarded(self.ensure_frames, where, "create_frames")[1] is not None:
             return
-        m = model_kernel()
+        m = model_kernel(self.variant)
         name = op["name"]
         if name not in m["index"] or m["index"][name] not in m["seg"]:
             return
@@ -421,6 +552,19 @@ class World:
                 pass
             ctx.fault("consumer_mutates_item")
             self.history_nontrivial = True
+            if op.get("then_propagate") is not None and how != "values" and SPAN_MJD[0] + 6 <= op["date"][0] <= SPAN_MJD[1] - 6:
+                # the caller goes on with the object it changed: propagated to another date it still denotes the body (whatever the frame
+                # of the answer), and the frames built on the same propagator keep serving the kernel
+                d2 = date.change_scale("TAI") + n.timedelta(days=op["then_propagate"])  # uniform time (UTC arithmetic works on the clock reading: a leap second may intervene)
+                d2l = [op["date"][0], op["date"][1], op["date"][2], op["then_propagate"]]
+                res, exc = self.guarded(lambda: np.array(o.propagate(d2).copy(frame=centre, form="cartesian"), dtype=float), where, f"propagate() of the changed get_orbit({name})")
+                if exc is None:
+                    ctx.probe("propagated_after_in_place_change")
+                    self.check_vector(res, name, centre, d2l, where + " (changed in place, then propagated)")
+                    far = "SolarSystemBarycenter" if centre != "SolarSystemBarycenter" else "Earth"
+                    got3, exc = self.guarded(lambda: np.array(n.StateVector([0.0] * 6, date, "cartesian", name).copy(frame=far), dtype=float), where, f"conversion {name} -> {far}")
+                    if exc is None:
+                        self.check_vector(got3, name, far, op["date"], where + " (conversion after the caller changed and propagated what get_orbit returned)")
             o2, exc = self.guarded(lambda: jpl.get_orbit(name, date), where, f"get_orbit({name}) again")
             if exc is None:
                 ctx.probe("mutated_then_queried_again")
@@ -440,7 +584,7 @@ class World:
         jpl = n.mod("beyond.env.jpl")
         if self.guarded(self.ensure_frames, where, "create_frames")[1] is not None:
             return
-        m = model_kernel()
+        m = model_kernel(self.variant)
         name = op["name"]
         if name not in m["index"] or m["index"][name] not in m["seg"]:
             return
@@ -495,7 +639,7 @@ class World:
         jpl = n.mod("beyond.env.jpl")
         if getattr(self, "name_clash", False) or self.guarded(self.ensure_frames, where, "create_frames")[1] is not None:
             return
-        m = model_kernel()
+        m = model_kernel(self.variant)
         name, to = op["name"], op["to"]
         if name not in m["index"] or m["index"][name] not in m["seg"] or to == name:
             return
@@ -523,7 +667,7 @@ class World:
         jpl = n.mod("beyond.env.jpl")
         if self.guarded(self.ensure_frames, where, "create_frames")[1] is not None:
             return
-        m = model_kernel()
+        m = model_kernel(self.variant)
         name = op["name"]
         if name not in m["index"] or m["index"][name] not in m["seg"]:
             return
@@ -601,7 +745,7 @@ class World:
         frames = n.frames
         errors = n.mod("beyond.errors")
         name = op["name"]
-        known = name in model_kernel()["index"]
+        known = name in model_kernel(self.variant)["index"]
         try:
             fr = frames.get_frame(name)
             exc = None
